@@ -212,10 +212,10 @@ func runC05(c *Ctx, in M) (out interface{}) {
 func genC05(c *Ctx) {
 	runs := 6
 	if c.Thorough {
-		runs = 60
+		runs = 24
 	}
 	for i := 0; i < runs; i++ {
-		c.DoChild("c05.conc", M{"seed": int(c.Seed)*100 + i, "writers": 4 + i%5, "ops": 60, "readers": 2, "procs": []int{1, 4, 16}[i%3]}, 120*time.Second)
+		c.DoChild("c05.conc", M{"seed": int(c.Seed)*100 + i, "writers": 4 + i%5, "ops": 60, "readers": 2, "procs": []int{1, 4, 16}[i%3]}, 45*time.Second)
 	}
 }
 
